@@ -13,7 +13,8 @@ RULE = ('shim runs of the REAL TestManager with an instrumented test that record
         'text passes (lines None, line_markers, blank, includes, comments, balanced, ints, ifs with a stand-in unifdef) on C-like '
         'files.  Oracle: manifest keys = the test cases exactly; every file but the one being reduced is byte-identical to the '
         'accepted version on disk; no cwd is used twice nor lies in the working directory; the user files are untouched by the '
-        'clobbering; non-trivial = distinct invocations in multi-file scenarios with a changed candidate')
+        'clobbering; non-trivial = distinct invocations in multi-file scenarios with a changed candidate'
+        ' Also (rounds 4-5): a symlinked test case (must arrive as a private regular file), a copy that fails while a test directory is filled (ENOSPC / EACCES / EPERM), on every invocation at most one test case may hold contents not accepted so far (scripted and real passes; lines pass with formatter and two files).')
 TRUSTED = T0 + ['the instrumented test runs in-process under the shim (fast mode): what a real sh test could do outside its cwd through absolute paths is outside the property']
 ASSUMPTIONS = ['the test addresses its files by relative path only']
 HERE = os.path.dirname(os.path.abspath(__file__))
